@@ -15,7 +15,7 @@ for u in units.all_units():
     for c in fails:
         print('   FAIL', c['id'], '|', c['label'], '|', c['desc'][:90], '| %s:%s' % (os.path.basename(c['file']), c['line']))
         if trace:
-            for s in c.get('trace', [])[-40:]: print('        ', s)
+            for s in [x for x in c.get('trace', []) if 'failure' in x or (str(x.get('lhs', '')).startswith('g_') or x.get('lhs') in ('res', 'result', 'sub_res'))][-25:]: print('        ', s.get('lhs', s.get('failure')), '=', s.get('value'), '@', s.get('line'))
     if showc:
         p = os.path.join(wd, 'unit.c')
         if os.path.exists(p):
